@@ -112,7 +112,7 @@ class Check(AddCheck):
             docs.append(metadata_replace(mid, [E('roSlug', text=rng.choice(SPECIAL)), deep(rng, 3),
                                                E('mosExternalMetadata', E('mosSchema', text='http://schema/ro'), E('mosPayload', deep(rng, 3)))]))
             for d in docs:
-                yield {'ro': ro, 'msg': to_text(d), 'meta': {'cls': d[3][0].tag + (':' + d[3][0].get('operation', '') if d[3][0].get('operation') else ''), 'n': len(sids)}}
+                yield {'ro': ro, 'msg': to_text(d), 'meta': {'cls': d[3].tag + (':' + d[3].get('operation', '') if d[3].get('operation') else ''), 'n': len(sids)}}
 
     def obs(self, o):
         if 'classerr' in o:
